@@ -753,9 +753,21 @@ func c09entry(tni *onet.TreeNodeInstance, entry string, nodes []*onet.TreeNode, 
 	return 0
 }
 
-func (w *c09world) selfsend(n int) string {
+// C09Unhandled is a registered message type nobody has a processor for.
+type C09Unhandled struct{ V int64 }
+
+var c09unhandledOnce sync.Once
+
+// selfsend: Router.Send of n messages to the own identity; bad >= 0: message number bad is of a type the
+// survivor's dispatcher has no processor for (the call must end there with an error, what came before stays dispatched).
+func (w *c09world) selfsend(n, bad int) string {
+	c09unhandledOnce.Do(func() { network.RegisterMessage(&C09Unhandled{}) })
 	var ms []network.Message
 	for i := 0; i < n; i++ {
+		if i == bad {
+			ms = append(ms, &C09Unhandled{V: 1})
+			continue
+		}
 		ms = append(ms, &C09Msg{V: atomic.AddInt64(&w.seq, 1)})
 	}
 	before := atomic.LoadInt64(&w.selfGot)
@@ -766,11 +778,19 @@ func (w *c09world) selfsend(n int) string {
 		return "blocked"
 	}
 	got := atomic.LoadInt64(&w.selfGot) - before // dispatched in the caller's goroutine: nothing to wait for
-	if (n == 0) != (err != nil) {
-		w.cs.Fail("spurious-error", fmt.Sprintf("a send of %d message(s) of the survivor to itself returned %v", n, err))
+	wantGot := int64(n)
+	if bad >= 0 {
+		wantGot = int64(bad)
 	}
-	if got != int64(n) {
-		w.cs.Fail("not-delivered", fmt.Sprintf("a send of %d message(s) of the survivor to itself dispatched %d", n, got))
+	if (n == 0 || bad >= 0) != (err != nil) {
+		sig := "spurious-error"
+		if err == nil {
+			sig = "error-not-reported"
+		}
+		w.cs.Fail(sig, fmt.Sprintf("a send of %d message(s) of the survivor to itself (undispatchable message: %d) returned %v", n, bad, err))
+	}
+	if got != wantGot {
+		w.cs.Fail("not-delivered", fmt.Sprintf("a send of %d message(s) of the survivor to itself (undispatchable message: %d) dispatched %d", n, bad, got))
 	}
 	w.tag("selfsend")
 	if err != nil {
@@ -1324,7 +1344,14 @@ func c09exec(c *h.Ctx, cs *h.Case) {
 			obs = w.rawEv(tk[2], tk[3], tk[4])
 		case len(tk) == 3 && tk[1] == "selfsend":
 			if n, err := strconv.Atoi(tk[2]); err == nil && n >= 0 {
-				obs = w.selfsend(n)
+				obs = w.selfsend(n, -1)
+			}
+		case len(tk) == 4 && tk[1] == "selfsend":
+			n, err1 := strconv.Atoi(tk[2])
+			k, err2 := strconv.Atoi(tk[3])
+			if err1 == nil && err2 == nil && k >= 0 && k < n && n <= 16 {
+				obs = w.selfsend(n, k)
+				w.tag("selfsend-undispatchable")
 			}
 		case len(tk) == 5 && tk[1] == "par":
 			deads, ok := c09ints(tk[3])
